@@ -215,14 +215,12 @@ type verdict struct {
 	wantErr *ref.Error
 }
 
-func variants(ctl string, args []ref.Val, used ref.Used) []string {
+// variants renders under every combination of the documented latitudes.
+func variants(ctl string, args []ref.Val) []string {
 	var outs []string
 	seen := map[string]bool{}
 	for m := 0; m < 16; m++ {
 		o := ref.Opts{FreshAtStart: m&1 != 0, TabStopStay: m&2 != 0, SpaceHyphen: m&4 != 0, Negative: m&8 != 0}
-		if (o.FreshAtStart && !used.Fresh) || (o.TabStopStay && !used.TabStop) || (o.SpaceHyphen && !used.Hyphen) || (o.Negative && !used.Neg) {
-			continue
-		}
 		t, _, err := ref.Render(ctl, args, thePrinter, o)
 		if err != nil || seen[t] {
 			continue
@@ -245,7 +243,7 @@ func judge(ctl string, args []ref.Val) verdict {
 	}
 	v := verdict{used: used, want: []string{want}}
 	if used.Fresh || used.TabStop || used.Hyphen || used.Neg {
-		v.want = variants(ctl, args, used)
+		v.want = variants(ctl, args)
 	}
 	v.got = runSlip(ctl, args, destNil)
 	switch {
@@ -343,6 +341,11 @@ func exec(x *fw.Ctx, c Case) {
 		mc, ma := minimise(c.Ctl, c.Args, v.kind)
 		mv := judge(mc, ma)
 		sig := signature(mc, ma, mv)
+		if c.Blk == "random" && c.Dirty == "" {
+			// the clean stream avoids every known-broken construct, so nothing
+			// that fails there may be booked on one
+			sig = "clean-stream " + sig
+		}
 		x.Fail(sig, "(format nil %q %s) => %s, the directive definitions give %q [smallest form of: (format nil %q %s) => %s, expected %q]",
 			mc, showArgs(ma), mv.describe(), first(mv.want), c.Ctl, showArgs(c.Args), v.describe(), v.want[0])
 		return
@@ -582,8 +585,58 @@ func randomCount(tier string) int {
 	return 60000
 }
 
+func englishRandomCount(tier string) int {
+	if tier == "thorough" {
+		return 100000
+	}
+	return 8000
+}
+
+// englishRandom: a number below 10^66 built group by group. Most are built
+// to stay out of the known-broken classes (no group X0 with X >= 2, lowest
+// group not 000, ordinals not ending in hundred), so that apart from the
+// 'quantillion' spelling every scale word and every group is monitored.
+func englishRandom(r *rand.Rand) Case {
+	ordinal := r.IntN(2) == 0
+	free := r.IntN(4) == 0
+	ngroups := 1 + r.IntN(22)
+	x := new(big.Int)
+	for g := ngroups - 1; 0 <= g; g-- {
+		var grp int
+		for {
+			grp = r.IntN(1000)
+			if r.IntN(6) == 0 && g != 0 && g != ngroups-1 {
+				grp = 0
+			}
+			if free {
+				break
+			}
+			if 20 <= grp%100 && grp%10 == 0 {
+				continue
+			}
+			if g == 0 && (grp == 0 || (ordinal && grp%100 == 0)) {
+				continue
+			}
+			if g == ngroups-1 && grp == 0 {
+				continue
+			}
+			break
+		}
+		x.Mul(x, big.NewInt(1000))
+		x.Add(x, big.NewInt(int64(grp)))
+	}
+	if r.IntN(6) == 0 {
+		x.Neg(x)
+	}
+	ctl := "~R"
+	if ordinal {
+		ctl = "~:R"
+	}
+	return Case{Blk: "english-random", Ctl: ctl, Args: []ref.Val{bv(x)}}
+}
+
 func nCases(tier string) int {
-	return romanBlock + 2*englishSmall + 2*len(englishBig) + intGridSize(tier) + len(probes) + randomCount(tier)
+	return romanBlock + 2*englishSmall + 2*len(englishBig) + intGridSize(tier) + len(probes) + englishRandomCount(tier) + randomCount(tier)
 }
 
 func gen(r *rand.Rand, i int, tier string) Case {
@@ -618,13 +671,17 @@ func gen(r *rand.Rand, i int, tier string) Case {
 	if i < len(probes) {
 		return Case{Blk: "probe", Ctl: probes[i].ctl, Args: probes[i].args}
 	}
-	g := &G{r: r}
+	i -= len(probes)
+	if i < englishRandomCount(tier) {
+		return englishRandom(r)
+	}
+	g := &G{r: r, hit: new(bool)}
 	if r.IntN(8) == 0 {
 		g.dirty = dirtyFeatures[r.IntN(len(dirtyFeatures))]
 	}
 	ctl, args := g.topLevel()
 	c := Case{Blk: "random", Ctl: ctl, Args: args}
-	if g.hit {
+	if *g.hit {
 		c.Dirty = g.dirty
 	}
 	return c
@@ -634,17 +691,16 @@ func init() {
 	fw.Register(fw.Spec[Case]{
 		ID: "C15",
 		Rule: "one call of format = control string + arguments. Fixed blocks (same for every seed): ~@R and ~:@R for every n in 1..3999; ~R and ~:R for every n in -200..10000 " +
-			"and for structured numbers around every power of ten below 10^66; ~D ~B ~O ~X over the full grid mods x mincol x padchar x commachar x interval x boundary integers; " +
+			"and for structured numbers around every power of ten below 10^66, plus seeded numbers below 10^66 built group by group; ~D ~B ~O ~X over the full grid mods x mincol x padchar x commachar x interval x boundary integers; " +
 			"a probe list that sweeps each directive's parameters (every printable ASCII pad character, ~T over colnum x colinc x column, ~C over characters, block nestings, ~[ shapes). " +
 			"Then seeded compositions of up to 4 pieces, nested to depth 3, drawn from all directives of the property with literal, v and # parameters and every modifier; arguments are " +
 			"integers of every magnitude (fixnum/bignum boundary grid, up to 215 bits), strings (incl. ~ and quote characters), characters, symbols, lists of length 0..4 and nested lists. " +
 			"1 case in 8 of the seeded part carries exactly one construct known to be broken on the pinned tree (dirty stream); the rest avoid all of them (clean stream). " +
 			"distinct = distinct (control, arguments); non-trivial = the oracle gives a text (legal control string with enough arguments of the right type)",
-		N:        nCases,
-		Gen:      gen,
-		Exec:     exec,
-		Batch:    4000,
-		HangSecs: 30,
+		N:     nCases,
+		Gen:   gen,
+		Exec:  exec,
+		Batch: 4000,
 		Assumptions: []string{
 			"~A and ~S are judged relative to princ-to-string / prin1-to-string of the same object (C03 owns the absolute rendering)",
 			"digits above 9 are lower case, as slip prints them everywhere",
